@@ -141,7 +141,22 @@ impl<const N: usize> Ex<N> {
             }
             if !good {
                 let got: Vec<(u32, u32)> = items.iter().map(|i| (i.id, i.val)).collect();
-                self.fail(out.own | cls::CONTENTS, format!("{}: destination holds {got:?}, expected fresh element-wise clones of {src:?}", st.op.name()));
+                // clones that were made but are in neither buffer (nothing is in flight here):
+                // the same failure is an ownership failure too (C03)
+                let mut owned: Vec<u32> = items.iter().map(|i| i.id).collect();
+                owned.extend(self.items(x).iter().map(|i| i.id));
+                owned.extend(self.hand.iter().map(|t| t.id));
+                owned.sort_unstable();
+                let lost: Vec<u32> = crate::elem::H.with(|h| {
+                    let h = h.borrow();
+                    h.ents.iter().enumerate().skip(1).filter(|(id, e)| e.drops == 0 && !e.leaked && owned.binary_search(&(*id as u32)).is_err()).map(|(id, _)| id as u32).collect()
+                });
+                let (led, also) = if lost.is_empty() {
+                    (0, String::new())
+                } else {
+                    (cls::LEDGER, format!(" [also: elements {:?} are alive but neither in a buffer nor with the caller (leaked)]", &lost[..lost.len().min(8)]))
+                };
+                self.fail(out.own | cls::CONTENTS | led, format!("{}: destination holds {got:?}, expected fresh element-wise clones of {src:?}{also}", st.op.name()));
             } else {
                 self.models[y] = items.iter().map(|i| (i.id, i.val)).collect();
             }
@@ -405,7 +420,7 @@ impl<const N: usize> Ex<N> {
             // comparing a buffer with itself is still element-wise (not reflexive for NaN-like values)
             #[allow(clippy::eq_op)]
             let self_eq = **a == **a;
-            let eq1 = **a == **tr && (self_eq == !a_has_nan);
+            let eq1 = **a == **tr;
             let eq2 = **tr == **a;
             let ne = **a != **tr;
             let pc = (**a).partial_cmp(&**tr);
@@ -414,12 +429,14 @@ impl<const N: usize> Ex<N> {
             let mut hb = RecHasher::new();
             a.hash(&mut ha);
             tr.hash(&mut hb);
-            (eq1, eq2, ne, pc, pc2, ha.finish(), hb.finish())
+            (eq1, eq2, ne, pc, pc2, ha.finish(), hb.finish(), self_eq)
         });
         self.allocs += crate::alloc::take_op_allocs();
-        if let Some((eq1, eq2, ne, pc, pc2, ha, hb)) = self.settle(r, false, own) {
+        if let Some((eq1, eq2, ne, pc, pc2, ha, hb, self_eq)) = self.settle(r, false, own) {
             let _ = write!(self.trace.line(), " r={}{}{}{:?}", eq1 as u8, eq2 as u8, ne as u8, pc);
-            if eq1 != want_eq || eq2 != want_eq || ne == want_eq {
+            if self_eq == a_has_nan {
+                self.fail(own, format!("buffer {va:?} compared with itself: == gave {self_eq} (element-wise equality; the NaN-like value {} is not equal to itself)", crate::elem::NAN_VAL));
+            } else if eq1 != want_eq || eq2 != want_eq || ne == want_eq {
                 self.fail(own, format!("capacity {N} buffer {va:?} vs capacity {M} buffer {vs:?}: a==b {eq1}, b==a {eq2}, a!=b {ne}"));
             } else if pc != want_partial || pc2 != want_partial.map(|o| o.reverse()) {
                 self.fail(own, format!("partial_cmp of {va:?} vs {vs:?} (capacities {N}, {M}) = {pc:?} / reversed {pc2:?}"));
